@@ -360,6 +360,9 @@ func GenBolt(v2 bool, big bool) *rapid.Generator[*Frame] {
 		f.Codec = genU8().Draw(t, "codec")
 		if v2 {
 			f.Switch = genU8().Draw(t, "switch")
+			// ver1 is a fixed field like any other: MOSN carries it along and has to hand it on unchanged (mostly 1, the
+			// value every deployed peer sends)
+			f.Ver1 = rapid.SampledFrom([]byte{1, 1, 1, 1, 2, 0, 0xff}).Draw(t, "ver1")
 		}
 		f.Timeout = genU32().Draw(t, "timeout")
 		f.Status = genU16().Draw(t, "status")
